@@ -8,7 +8,8 @@ PID = 'C01'
 GENS = ['tok', 'kvser']
 DRIVERS = ['drv_c01']
 PROPS = 'Srctools.Props.C01'
-RULE = ("trees: random Keyvalues trees (depth <= 6, width <= 6, node budget <= 40; empty blocks, duplicate and empty "
+RULE = ("trees: a small exhaustive family (all leaves with name/value of length <= 1 over the 17-symbol alphabet, all empty / "
+        "one-leaf blocks with names of length <= 2 over 11 syntax symbols) + random Keyvalues trees (depth <= 6, width <= 6, node budget <= 40; empty blocks, duplicate and empty "
         "names; names/values over the 17-symbol alphabet of C02 + KV syntax characters + random Unicode scalars; 15% of "
         "trees have CR/LF in names and are parsed with newline_keys=True), as a single keyvalue or under Keyvalues.root, "
         "with indent in {TAB, 2 spaces, '', ' TAB'}, indent_braces in {True, False}, start_indent in 5 whitespace strings; "
@@ -197,8 +198,8 @@ def gen_case(rng):
     names_nl = rng.random() < 0.15
     is_root = rng.random() < 0.25
     n_roots = rng.choice([0, 1, 2, 3, 4]) if is_root else 1
-    budget = [rng.choice([1, 3, 8, 20, 40])]
-    roots = [G.rand_tree(rng, rng.choice([0, 1, 2, 3, 4, 6]), budget, names_nl) for _ in range(n_roots)]
+    budget = [rng.choice([1, 3, 8, 20, 40, 40])]
+    roots = [G.rand_tree(rng, rng.choice([0, 1, 2, 3, 4, 5, 6, 6]), budget, names_nl) for _ in range(n_roots)]
     return roots, is_root, rand_opts(rng), rand_opts(rng)
 
 
@@ -222,7 +223,7 @@ def gen_docs(ctx, impl, texts):
         yield d, rand_po(rng)
         yield d, dict(DEFAULT_PO, sb=True)
         yield d, dict(DEFAULT_PO, sl=True)
-    n = ctx.budget(5000, 60000)
+    n = ctx.budget(25000, 300000)
     for i in range(n):
         r = rng.random()
         if r < 0.35:
@@ -242,60 +243,9 @@ def _special(s):
     return any(c in s for c in '"\\{}[]\r\n')
 
 
-def correspond(ctx, drivers):
-    impl = Impl()
-    drv = drivers['drv_c01']
-    rng = ctx.rng
-    reqs, meta, texts = [], [], []
-    # ---- trees: serialise text and parse of it
-    for i in range(ctx.budget(2500, 30000)):
-        roots, is_root, o, o2 = gen_case(rng)
-        text, fails = property_on_impl(ctx, impl, roots, is_root, o, o2, rng)
-        st = [G.tree_stats(t) for t in roots]
-        nodes = sum(s[0] for s in st)
-        ctx.count('tree:nodes<=%d' % next(b for b in (1, 3, 8, 20, 40, 10 ** 9) if nodes <= b))
-        ctx.count('tree:depth=%d' % max([s[1] for s in st] or [0]))
-        ctx.count('tree:root' if is_root else 'tree:single')
-        for flag, key in ((3, 'empty-block'), (4, 'dup-names'), (5, 'empty-name')):
-            if any(s[flag] for s in st):
-                ctx.count('tree:' + key)
-        ctx.count('ser:indent=%r,braces=%s' % (o['indent'], o['braces']))
-        case = {'roots': [G.enc(t) for t in roots], 'is_root': is_root, 'o': o}
-        ctx.case(case, nontrivial=any(_special(s) for t in roots for s in G.tree_strings(t)) or nodes > 1,
-                 sample_every=397)
-        reqs.append({'op': 'ser', 'root': is_root, 'trees': case['roots'], 'indent': codes(o['indent']),
-                     'braces': o['braces'], 'start': codes(o['start'])})
-        if text is None:
-            meta.append(('ser', case, None, None))
-            continue
-        names_ok = not any(c in n for t in roots for n in G.tree_names(t) for c in '\r\n')
-        po = dict(DEFAULT_PO, nk=not names_ok)
-        kind, src = G.sources(rng, text)[i % 3]
-        got = impl.parse(src, po)
-        ctx.count('parse-of-serialised:' + kind)
-        reqs.append(dict(model_po(impl, po, text), op='parse', s=codes(text)))
-        meta.append(('ser+parse', case, text, got))
-        if len(texts) < 4000 and text:
-            texts.append(text)
-    # ---- documents
-    for j, (d, po) in enumerate(gen_docs(ctx, impl, texts)):
-        kind, src = G.sources(rng, d)[j % 3]
-        got = impl.parse(src, po)
-        reqs.append(dict(model_po(impl, po, d), op='parse', s=codes(d)))
-        meta.append(('doc', {'doc': d, 'po': po, 'src': kind}, d, got))
-        ctx.case({'doc': d, 'po': po}, nontrivial=_special(d), sample_every=1499)
-        if got['k'] == 'err':
-            ctx.count('doc:err:%s' % (got['err'][0] if got['err'][0] != 1 else 'tok%s' % got['err'][1]))
-        else:
-            ctx.count('doc:' + got['k'])
-        ctx.count('doc:src=' + kind)
-        for opt in ('nk', 'sl', 'sb'):
-            if po[opt]:
-                ctx.count('doc:opt:' + opt)
-        if not po['nv'] or not po['esc']:
-            ctx.count('doc:opt:nv/esc off')
-        if po['flags']:
-            ctx.count('doc:opt:flags')
+def _flush(ctx, drv, reqs, meta):
+    if not reqs:
+        return
     replies = iter(drv.batch(reqs))
     for tag, case, text, got in meta:
         if tag in ('ser', 'ser+parse'):
@@ -314,6 +264,97 @@ def correspond(ctx, drivers):
             m.pop('lines', None)
         if g != m:
             ctx.disagree(case, g, m, 'parse' if tag == 'doc' else 'parse of serialised text')
+    del reqs[:], meta[:]
+
+
+def small_cases():
+    """Deterministic part: every leaf with name and value of length <= 1 over SIGMA17 (names without CR/LF),
+    every empty block and one-leaf block with a name of length <= 2 over the syntax-relevant symbols."""
+    sig = [''] + G.SIGMA17
+    names = [x for x in sig if x not in ('\r', '\n')]
+    for n in names:
+        for v in sig:
+            yield [[0, n, v]]
+    sym = ['"', '\\', '{', '}', '[', ']', ' ', '\t', 'a', '/', '#']
+    for a in [''] + sym:
+        for b in [''] + sym:
+            yield [[1, a + b, []]]
+            yield [[1, a + b, [[0, b, a]]]]
+
+
+def correspond(ctx, drivers):
+    impl = Impl()
+    drv = drivers['drv_c01']
+    rng = ctx.rng
+    reqs, meta, texts = [], [], []
+    plain = {'indent': '\t', 'braces': True, 'start': ''}
+    cases = [(r, False, plain, {'indent': '', 'braces': False, 'start': '  '}) for r in small_cases()]
+    n_small = len(cases)
+    ctx.extra['exhaustive_part'] = ('all leaves with |name|,|value| <= 1 over SIGMA17 (names without CR/LF); all empty and '
+                                    'one-leaf blocks with names of length <= 2 over 11 syntax-relevant symbols')
+    ctx.exhaustive = False
+    n_rand = ctx.budget(12000, 150000)
+    # ---- trees: serialise text and parse of it
+    for i in range(n_small + n_rand):
+        roots, is_root, o, o2 = cases[i] if i < n_small else gen_case(rng)
+        text, fails = property_on_impl(ctx, impl, roots, is_root, o, o2, rng)
+        st = [G.tree_stats(t) for t in roots]
+        nodes = sum(s[0] for s in st)
+        if i >= n_small:
+            ctx.count('tree:nodes<=%d' % next(b for b in (1, 3, 8, 20, 40, 10 ** 9) if nodes <= b))
+            ctx.count('tree:depth=%d' % max([s[1] for s in st] or [0]))
+            ctx.count('tree:root' if is_root else 'tree:single')
+            for flag, key in ((3, 'empty-block'), (4, 'dup-names'), (5, 'empty-name')):
+                if any(s[flag] for s in st):
+                    ctx.count('tree:' + key)
+            ctx.count('ser:indent=%r,braces=%s' % (o['indent'], o['braces']))
+        else:
+            ctx.count('tree:small-exhaustive')
+        case = {'roots': [G.enc(t) for t in roots], 'is_root': is_root, 'o': o}
+        ctx.case(case, nontrivial=any(_special(s) for t in roots for s in G.tree_strings(t)) or nodes > 1,
+                 sample_every=1999)
+        reqs.append({'op': 'ser', 'root': is_root, 'trees': case['roots'], 'indent': codes(o['indent']),
+                     'braces': o['braces'], 'start': codes(o['start'])})
+        if text is None:
+            meta.append(('ser', case, None, None))
+            continue
+        names_ok = not any(c in n for t in roots for n in G.tree_names(t) for c in '\r\n')
+        po = dict(DEFAULT_PO, nk=not names_ok)
+        kind, src = G.sources(rng, text)[i % 3]
+        got = impl.parse(src, po)
+        ctx.count('parse-of-serialised:' + kind)
+        reqs.append(dict(model_po(impl, po, text), op='parse', s=codes(text)))
+        meta.append(('ser+parse', case, text, got))
+        if text and (len(texts) < 4000 or rng.random() < 0.05):
+            if len(texts) < 4000:
+                texts.append(text)
+            else:
+                texts[rng.randrange(len(texts))] = text
+        if len(reqs) >= 20000:
+            _flush(ctx, drv, reqs, meta)
+    _flush(ctx, drv, reqs, meta)
+    # ---- documents
+    for j, (d, po) in enumerate(gen_docs(ctx, impl, texts)):
+        kind, src = G.sources(rng, d)[j % 3]
+        got = impl.parse(src, po)
+        reqs.append(dict(model_po(impl, po, d), op='parse', s=codes(d)))
+        meta.append(('doc', {'doc': d, 'po': po, 'src': kind}, d, got))
+        ctx.case({'doc': d, 'po': po}, nontrivial=_special(d), sample_every=4999)
+        if got['k'] == 'err':
+            ctx.count('doc:err:%s' % (got['err'][0] if got['err'][0] != 1 else 'tok%s' % got['err'][1]))
+        else:
+            ctx.count('doc:' + got['k'])
+        ctx.count('doc:src=' + kind)
+        for opt in ('nk', 'sl', 'sb'):
+            if po[opt]:
+                ctx.count('doc:opt:' + opt)
+        if not po['nv'] or not po['esc']:
+            ctx.count('doc:opt:nv/esc off')
+        if po['flags']:
+            ctx.count('doc:opt:flags')
+        if len(reqs) >= 20000:
+            _flush(ctx, drv, reqs, meta)
+    _flush(ctx, drv, reqs, meta)
 
 
 # ----------------------------------------------------------------------------- shrinking
@@ -369,7 +410,10 @@ def search(ctx):
     impl = Impl()
     rng = ctx.rng
     if ctx.evaluations == 0:
-        for _ in range(ctx.budget(2500, 30000)):
+        plain = {'indent': '\t', 'braces': True, 'start': ''}
+        for r in small_cases():
+            property_on_impl(ctx, impl, r, False, plain, {'indent': '', 'braces': False, 'start': '  '}, rng)
+        for _ in range(ctx.budget(12000, 150000)):
             roots, is_root, o, o2 = gen_case(rng)
             property_on_impl(ctx, impl, roots, is_root, o, o2, rng)
             ctx.count('search:tree')
@@ -431,12 +475,16 @@ def replay_known(ctx, finding):
 
 
 LEVEL_TEXT = ("Theorems in Lean about the executable model of Keyvalues._serialise / Keyvalues.parse over the shared "
-              "tokenizer model: C01_roundtrip (parse (serialise o t) = [t] for every tree, every whitespace indent / "
-              "start_indent, both indent_braces, names without CR/LF or newline_keys), C01_roundtrip_root, "
-              "C01_tokens (the token stream of the serialised text, with line numbers, is a function of the tree alone) "
-              "and C01_ws_indep, C01_block_names_escaped_needed (witness that the unescaped block-name writer is not "
-              "invertible). The model is tied to keyvalues.py by the translator (which fields are escaped, the text "
-              "templates) and by a differential run of serialise text and parse results/errors.")
+              "tokenizer model, for every tree and every tokenizer table satisfying decidable predicates re-checked on the "
+              "current source: C01_roundtrip (parse(serialise(t)) = root[t] for every whitespace indent / start_indent, both "
+              "indent_braces, any flags / single_line, names without CR/LF or newline_keys), C01_roundtrip_root (any number of "
+              "top-level keyvalues), C01_roundtrip_single_block, C01_tokens / C01_tokens_root (the token stream of the "
+              "serialised text - kinds, values, line numbers - is a function of the tree alone), C01_ws_indep, and "
+              "C01_block_names_escaped_needed / C01_unescaped_not_roundtrip / C01_unescaped_alters_name (the writer that "
+              "leaves block names raw - the defect fixed in /repo - is not invertible). C01_gen_cfg / C01_gen_shape / "
+              "C01_gen_tables tie the writer (which fields are escaped, the text templates) and the tables to keyvalues.py / "
+              "tokenizer.py through the translator; the parser control flow is tied by a differential run of serialise text "
+              "and parse results / error ids / line numbers.")
 LEVEL_NOTE = ("Trusted: Lean kernel + propext/Classical.choice/Quot.sound; tools/gen_kvser.py, tools/gen_tok.py; the "
               "correspondence harness. Chunked / file-object input relies on C03 (chunk independence); the Cython "
               "tokenizer twin is not covered.")
